@@ -110,6 +110,8 @@ func lineKind(l string) string {
 		return "cli"
 	case strings.HasPrefix(l, "st "):
 		return "st"
+	case strings.HasPrefix(l, "spec "):
+		return "spec"
 	}
 	return "other"
 }
